@@ -438,7 +438,10 @@ func Discharge(pre *Pre, fgs []*FuncGen, filter func(*Obligation) bool, timeoutM
 				os.MkdirAll(d, 0o755)
 				os.WriteFile(filepath.Join(d, strings.NewReplacer("/", "_", "#", "_", "@", "_").Replace(o.Name)+".smt2"), []byte(script), 0o644)
 			}
-			r := raceSolvers(script, o, timeoutMs*5, results[o], confirm)
+			mu.Lock()
+			first := results[o] // other workers of this round write the map
+			mu.Unlock()
+			r := raceSolvers(script, o, timeoutMs*5, first, confirm)
 			mu.Lock()
 			results[o] = r
 			mu.Unlock()
